@@ -339,6 +339,8 @@ fn rand_op(r: &mut Rng, kinds: u32) -> Op {
     }
 }
 
+pub const RULE: &str = "add/lookup histories over the public ControlPoints API: exhaustive over a small alphabet (per kind and mixed kinds) followed by lookups at every probe, plus random long histories with fractional/negative/extreme times; non-trivial = at least 3 adds and at least 2 points stored at the end; distinct = distinct case lines";
+
 pub fn generate(tier: &str, seed: u64, out: &mut Out) {
     let mut r = Rng::new(seed ^ 0xC13);
     // corpus: the recorded readings / findings first
